@@ -1,2 +1,304 @@
+//! C11 – array-building macros return fully initialised arrays equal to std's.
+//! (values vs std, early exits that are expressible in ordinary functions, builder histories;
+//!  the full early-exit x position x macro matrix is in the generated programs, gen/gen_c11.py)
 use crate::common::*;
-pub fn run(_cfg: &Cfg) -> (&'static str, Report, String, String) { ("C11", Report::new(), String::new(), String::new()) }
+use crate::ledger::{self, take_log, Tok};
+use konst::array as ka;
+
+fn double(x: u32) -> u32 {
+    x.wrapping_mul(2)
+}
+fn mk(i: usize) -> u64 {
+    (i as u64) * 3 + 1
+}
+
+fn values(cfg: &Cfg) -> Report {
+    let mut r = Report::new();
+    if !cfg.mine(0) {
+        return r;
+    }
+    macro_rules! forn {
+        ($($n:literal)*) => {$({
+            let input: [u32; $n] = core::array::from_fn(|i| (i as u32 + 1) * 7);
+            let want: [u32; $n] = input.map(|x| x.wrapping_mul(2));
+            // every accepted closure syntax
+            let g: [u32; $n] = ka::map!(input, |x| x.wrapping_mul(2));
+            r.ev("map!:closure");
+            r.eq("map!", || format!("N={} closure", $n), &g, &want);
+            let g: [u32; $n] = ka::map!(input, |x: u32| x.wrapping_mul(2));
+            r.ev("map!:typed-closure");
+            r.eq("map!", || format!("N={} typed closure", $n), &g, &want);
+            let g: [u32; $n] = ka::map!(input, |x| -> u32 { x.wrapping_mul(2) });
+            r.ev("map!:ret-closure");
+            r.eq("map!", || format!("N={} -> Ret closure", $n), &g, &want);
+            let g: [u32; $n] = ka::map!(input, double);
+            r.ev("map!:fn-path");
+            r.eq("map!", || format!("N={} function path", $n), &g, &want);
+            let g: [u32; $n] = ka::map_!(input, |x| x.wrapping_mul(2));
+            r.ev("map_!:closure");
+            r.eq("map_!", || format!("N={} closure", $n), &g, &want);
+            let g: [u32; $n] = ka::map_!(input, |x: u32| -> u32 { x.wrapping_mul(2) });
+            r.ev("map_!:typed-ret-closure");
+            r.eq("map_!", || format!("N={} typed -> Ret closure", $n), &g, &want);
+            let g: [u32; $n] = ka::map_!(input, double);
+            r.ev("map_!:fn-path");
+            r.eq("map_!", || format!("N={} function path", $n), &g, &want);
+            // non-Copy input by value, non-Copy output
+            let sin: [String; $n] = core::array::from_fn(|i| format!("s{}", i));
+            let want_s: [String; $n] = sin.clone().map(|s| format!("{}!", s));
+            let g: [String; $n] = ka::map_!(sin.clone(), |s| format!("{}!", s));
+            r.ev("map_!:String");
+            r.eq("map_!", || format!("N={} String", $n), &g, &want_s);
+            // map! over a non-Copy array through a ref pattern
+            let g: [usize; $n] = ka::map!(sin, |ref s| s.len());
+            r.ev("map!:ref-pattern");
+            r.eq("map!", || format!("N={} ref pattern", $n), &g, &core::array::from_fn(|i| format!("s{}", i).len()));
+            // from_fn
+            let want_f: [u64; $n] = core::array::from_fn(|i| (i as u64) * 3 + 1);
+            let g: [u64; $n] = ka::from_fn!(|i| (i as u64) * 3 + 1);
+            r.ev("from_fn!:closure");
+            r.eq("from_fn!", || format!("N={} closure", $n), &g, &want_f);
+            let g = ka::from_fn!([u64; $n] => |i| (i as u64) * 3 + 1);
+            r.ev("from_fn!:typed");
+            r.eq("from_fn!", || format!("N={} [T;N] => closure", $n), &g, &want_f);
+            let g: [u64; $n] = ka::from_fn!(mk);
+            r.ev("from_fn!:fn-path");
+            r.eq("from_fn!", || format!("N={} function path", $n), &g, &want_f);
+            let g: [u64; $n] = ka::from_fn_!(|i| (i as u64) * 3 + 1);
+            r.ev("from_fn_!:closure");
+            r.eq("from_fn_!", || format!("N={} closure", $n), &g, &want_f);
+            let g = ka::from_fn_!([u64; $n] => |i: usize| -> u64 { (i as u64) * 3 + 1 });
+            r.ev("from_fn_!:typed");
+            r.eq("from_fn_!", || format!("N={} [T;N] => typed closure", $n), &g, &want_f);
+            let g: [u64; $n] = ka::from_fn_!(mk);
+            r.ev("from_fn_!:fn-path");
+            r.eq("from_fn_!", || format!("N={} function path", $n), &g, &want_f);
+            let g: [Box<u32>; $n] = ka::from_fn_!(|i| Box::new(i as u32));
+            r.ev("from_fn_!:Box");
+            r.eq("from_fn_!", || format!("N={} Box", $n), &g, &core::array::from_fn(|i| Box::new(i as u32)));
+            let g: [String; $n] = ka::from_fn!(|i| format!("x{}", i));
+            r.ev("from_fn!:String");
+            r.eq("from_fn!", || format!("N={} String", $n), &g, &core::array::from_fn(|i| format!("x{}", i)));
+            // zero-sized element with Drop: N values produced, N dropped
+            ledger::ZDROPS.with(|z| z.set(0));
+            let g: [ledger::Zdrop; $n] = ka::from_fn_!(|_| ledger::Zdrop);
+            drop(g);
+            r.ev("from_fn_!:ZST-Drop");
+            let z = ledger::ZDROPS.with(|z| z.get());
+            if z != $n {
+                r.fail("C11:zst-drop-count", "from_fn_!", format!("N={}", $n), format!("{} drops", z), format!("{} drops", $n));
+            }
+            // ledger elements: the returned array contains exactly the produced values in order
+            let _ = take_log();
+            let g: [Tok; $n] = ka::from_fn_!(|i| Tok::new(i as u32));
+            r.ev("from_fn_!:Tok");
+            if g.iter().map(|t| t.id).collect::<Vec<_>>() != (0..$n as u32).collect::<Vec<_>>() || !g.iter().all(|t| t.intact()) {
+                r.fail("C11:from_fn_-contents", "from_fn_!", format!("N={} Tok", $n), format!("{:?}", g), "ids 0..N, intact".into());
+            }
+            drop(g);
+            let _ = take_log();
+            r.nt(&("values", $n));
+        })*};
+    }
+    forn!(0 1 2 3 4 5 6 7);
+    r
+}
+
+/// early exits written directly (each is also a generated program; here they run in all four
+/// harness build variants and under Miri)
+fn early_exits(cfg: &Cfg) -> Report {
+    let mut r = Report::new();
+    if !cfg.mine(0) {
+        return r;
+    }
+    // outcome classes: "array" (refuting, unless the exit never fired), "panic", "returned" (non-local return), "loop" (fuel watchdog)
+    fn classify<T>(res: Result<Option<T>, ()>, fuel_hit: bool) -> &'static str {
+        match res {
+            Err(()) if fuel_hit => "loop",
+            Err(()) => "panic",
+            Ok(None) => "returned",
+            Ok(Some(_)) => "array",
+        }
+    }
+    macro_rules! case {
+        ($name:literal, $fuel:ident, $body:expr) => {{
+            let $fuel = std::cell::Cell::new(0u32);
+            let res = catch(|| $body);
+            let class = classify(res, $fuel.get() > 1000);
+            r.ev(intern(&format!("early-exit:{}", class)));
+            if class == "array" {
+                r.fail("C11:array-returned-after-early-exit", $name, $name.into(), "the macro yielded an array".into(), "loop, panic, compile error or non-local return".into());
+            }
+            r.nt(&$name);
+        }};
+    }
+    macro_rules! tick {
+        ($fuel:ident) => {{
+            $fuel.set($fuel.get() + 1);
+            if $fuel.get() > 1000 {
+                panic!("WATCHDOG");
+            }
+        }};
+    }
+    for pos in [0u32, 1, 2] {
+        case!("map! break at pos", fuel, {
+            let a: [String; 3] = ka::map!([0u32, 1, 2], |x| {
+                tick!(fuel);
+                if x == pos {
+                    break;
+                }
+                x.to_string()
+            });
+            std::mem::forget(a); // never touch possibly-unwritten slots
+            Some(())
+        });
+        case!("map! continue at pos", fuel, {
+            let a: [String; 3] = ka::map!([0u32, 1, 2], |x| {
+                tick!(fuel);
+                if x == pos {
+                    continue;
+                }
+                x.to_string()
+            });
+            std::mem::forget(a);
+            Some(())
+        });
+        case!("map! return at pos", fuel, {
+            fn f(pos: u32) -> Option<[String; 3]> {
+                Some(ka::map!([0u32, 1, 2], |x| {
+                    if x == pos {
+                        return None;
+                    }
+                    x.to_string()
+                }))
+            }
+            f(pos).map(std::mem::forget)
+        });
+        case!("map! panic at pos", fuel, {
+            let a: [String; 3] = ka::map!([0u32, 1, 2], |x| {
+                if x == pos {
+                    panic!("user panic")
+                }
+                x.to_string()
+            });
+            std::mem::forget(a);
+            Some(())
+        });
+        case!("from_fn! break at pos", fuel, {
+            let a: [String; 3] = ka::from_fn!(|i| {
+                tick!(fuel);
+                if i as u32 == pos {
+                    break;
+                }
+                i.to_string()
+            });
+            std::mem::forget(a);
+            Some(())
+        });
+        case!("from_fn! continue at pos", fuel, {
+            let a: [String; 3] = ka::from_fn!(|i| {
+                tick!(fuel);
+                if i as u32 == pos {
+                    continue;
+                }
+                i.to_string()
+            });
+            std::mem::forget(a);
+            Some(())
+        });
+        case!("map_! break at pos", fuel, {
+            let a: [String; 3] = ka::map_!([0u32, 1, 2], |x| {
+                tick!(fuel);
+                if x == pos {
+                    break;
+                }
+                x.to_string()
+            });
+            std::mem::forget(a);
+            Some(())
+        });
+        case!("map_! continue at pos", fuel, {
+            let a: [String; 3] = ka::map_!([0u32, 1, 2], |x| {
+                tick!(fuel);
+                if x == pos {
+                    continue;
+                }
+                x.to_string()
+            });
+            std::mem::forget(a);
+            Some(())
+        });
+        case!("from_fn_! break at pos", fuel, {
+            let a: [String; 3] = ka::from_fn_!(|i| {
+                tick!(fuel);
+                if i as u32 == pos {
+                    break;
+                }
+                i.to_string()
+            });
+            std::mem::forget(a);
+            Some(())
+        });
+        case!("from_fn_! continue at pos", fuel, {
+            let a: [String; 3] = ka::from_fn_!(|i| {
+                tick!(fuel);
+                if i as u32 == pos {
+                    continue;
+                }
+                i.to_string()
+            });
+            std::mem::forget(a);
+            Some(())
+        });
+        case!("from_fn_! return at pos", fuel, {
+            fn f(pos: u32) -> Option<[String; 3]> {
+                Some(ka::from_fn_!(|i| {
+                    if i as u32 == pos {
+                        return None;
+                    }
+                    i.to_string()
+                }))
+            }
+            f(pos).map(std::mem::forget)
+        });
+    }
+    // length 1: break on the only (= last) element
+    case!("map! break, N=1", fuel, {
+        let a: [String; 1] = ka::map!([7u8], |_x| -> String {
+            tick!(fuel);
+            break
+        });
+        std::mem::forget(a);
+        Some(())
+    });
+    case!("from_fn! break, N=1", fuel, {
+        let a: [String; 1] = ka::from_fn!(|_i| -> String {
+            tick!(fuel);
+            break
+        });
+        std::mem::forget(a);
+        Some(())
+    });
+    case!("map_! break, N=1", fuel, {
+        let a: [String; 1] = ka::map_!([7u8], |_x| -> String {
+            tick!(fuel);
+            break
+        });
+        std::mem::forget(a);
+        Some(())
+    });
+    r
+}
+
+pub fn run(cfg: &Cfg) -> (&'static str, Report, String, String) {
+    ledger::set_protect(!(cfg.miri() || std::env::var_os("KV_RAW_DROPS").is_some()));
+    let mut rep = values(cfg);
+    rep.merge(early_exits(cfg));
+    rep.merge(crate::c15::builder_histories(cfg, true));
+    (
+        "C11",
+        rep,
+        format!("map!/map_!/from_fn!/from_fn_! for N in 0..=7 in every accepted closure syntax (closure, typed closure, -> Ret block, function path, ref pattern) over u32/u64/String/Box/ZST-with-Drop/ledger elements; break/continue/return/panic inside the closure at every position of a length-3 array and on a length-1 array; all ArrayBuilder histories up to depth N+{} for N in 0..={} (push/as_slice/as_mut_slice/len/is_full/clone, build or drop, over- and under-filling)", cfg.by(1, 3, 3), cfg.by(2, 3, 4)),
+        "one evaluation = one macro evaluation compared with <[T;N]>::map / core::array::from_fn, one early-exit program classified as loop (logical-step watchdog) / panic / non-local return / array (the refuting class), or one ArrayBuilder operation checked against the sequential model (build succeeds iff exactly N pushes and returns them in order) plus the ledger audit; non-trivial = each (macro, exit kind, position) program, each N for values, builder histories whose number of pushes differs from N".into(),
+    )
+}
